@@ -152,6 +152,26 @@ def handle (op : String) (args : List String) : Option String :=
       let (bs, ns) ← run (do let bs ← nat; let ns ← list nat; pure (bs, ns)) args
       pure (joinSp ((Samplers.Pso.run (Samplers.Pso.sampleBatch bs) Samplers.Pso.init ns).map (fun a => match a with
         | .start => "S" | .update n lo hi => s!"U:{n}:{lo}:{hi}")))
+  | "pso.run" => do
+      -- bs dims inertia c1 c2 across lo[dims] hi[dims] | calls: d0 (bs x dims) d1 (bs x dims) n points (n x dims) losses (n)
+      let r ← run (do
+        let bs ← nat; let dims ← nat
+        let w ← flt; let c1 ← flt; let c2 ← flt; let ac ← bool
+        let lo ← rep flt dims; let hi ← rep flt dims
+        let calls ← list (do
+          let d0 ← rep (rep flt dims) bs; let d1 ← rep (rep flt dims) bs
+          let n ← nat; let pts ← rep (rep flt dims) n; let ls ← rep flt n
+          pure (d0, d1, pts, ls))
+        pure (({ bs := bs, inertia := w, c1 := c1, c2 := c2, across := ac } : Pso.Cfg Float), lo, hi, calls)) args
+      let (cfg, lo, hi, calls) := r
+      let inf : Float := 1.0 / 0.0
+      let rows (m : List (List Float)) : String := ",".intercalate (m.map fl)
+      let (_, outs) := calls.foldl (fun (acc : Option (Pso.Swarm Float Float) × List String) c =>
+        let (d0, d1, pts, ls) := c
+        let (s', raw) := Pso.sampleBatch cfg 0.0 1.0 0.5 inf lo hi acc.1 d0 d1 pts ls
+        (some s', (s!"raw {rows raw} ; pos {rows s'.pos} ; vel {rows s'.vel} ; bp {rows s'.bestPos} ; bl {fl s'.bestLoss} ; gid {s'.gid} ; prev {s'.prevStart}") :: acc.2))
+        (none, [])
+      pure (" | ".intercalate outs.reverse)
   | "smp.select" => do
       let (dims, order, pool, k) ← run (do
         let dims ← nat; let order ← list nat; let pool ← list (rep flt dims); let k ← nat; pure (dims, order, pool, k)) args
